@@ -287,6 +287,7 @@ impl Check for SweepCheck {
     fn workloads(&self) -> Vec<Workload> {
         let mut v: Vec<Workload> = self.workloads.iter().map(|(n, q, t, _)| Workload { name: n, quick: *q, thorough: *t }).collect();
         v.extend(sweep_scripts(self.id).into_iter().map(|(n, q, t, _)| Workload { name: n, quick: q, thorough: t }));
+        v.push(Workload { name: "pooled-scripts", quick: POOLED.0, thorough: POOLED.1 });
         v
     }
     fn min_nontrivial(&self, tier: Tier) -> usize {
@@ -298,7 +299,8 @@ impl Check for SweepCheck {
     fn run(&self, workload: usize, seed: u64, index: u64, tier: Tier, verbose: bool) -> CaseOut {
         if workload >= self.workloads.len() {
             // scripted plain case
-            let f = sweep_scripts(self.id)[workload - self.workloads.len()].3;
+            let own = sweep_scripts(self.id);
+            let f: ScriptFn = if workload - self.workloads.len() < own.len() { own[workload - self.workloads.len()].3 } else { crate::scripts::pooled_script };
             let mut out = CaseOut::default();
             let (log, world) = self.exec_script(f, seed, index, tier);
             let w = world.borrow();
@@ -401,6 +403,9 @@ pub fn run_script(cfg: &CaseCfg, steps: Vec<Step>, seed: u64) -> (RunLog, crate:
 }
 
 /// Either generated (profile) or scripted workloads feeding one monitor.
+/// cases of the pooled scripted scenarios per run (quick, thorough)
+pub const POOLED: (u64, u64) = (1200, 120_000);
+
 pub enum Source {
     Gen(ProfileFn),
     Script(ScriptFn),
@@ -434,7 +439,9 @@ impl Check for MixCheck {
         self.assumptions.iter().map(|s| s.to_string()).collect()
     }
     fn workloads(&self) -> Vec<Workload> {
-        self.workloads.iter().map(|(n, q, t, _)| Workload { name: n, quick: *q, thorough: *t }).collect()
+        let mut v: Vec<Workload> = self.workloads.iter().map(|(n, q, t, _)| Workload { name: n, quick: *q, thorough: *t }).collect();
+        v.push(Workload { name: "pooled-scripts", quick: POOLED.0, thorough: POOLED.1 });
+        v
     }
     fn min_nontrivial(&self, tier: Tier) -> usize {
         if tier == Tier::Quick { self.min_nt.0 } else { self.min_nt.1 }
@@ -447,7 +454,8 @@ impl Check for MixCheck {
     }
     fn run(&self, workload: usize, seed: u64, index: u64, tier: Tier, verbose: bool) -> CaseOut {
         let mut rng = Rng::new(seed);
-        let (log, world) = match &self.workloads[workload].3 {
+        let pooled = Source::Script(crate::scripts::pooled_script);
+        let (log, world) = match self.workloads.get(workload).map(|w| &w.3).unwrap_or(&pooled) {
             Source::Gen(pf) => {
                 let profile = pf(&mut rng);
                 if self.epilogue_polls > 0 {
